@@ -215,6 +215,7 @@ impl Tree {
         Ok((canon, k))
     }
 
+    #[allow(dead_code)]
     pub fn resolve(&self, path: &[u8], follow_last: bool) -> Result<(Comps, Kind), RErr> {
         let p = self.parse(path)?;
         self.resolve_comps(&p, follow_last)
